@@ -140,6 +140,7 @@ type entrySnap struct {
 }
 
 type State struct {
+	hoist  []Term // definitions of path-condition names introduced at merges (asserted unconditionally; see mergeInto)
 	pc     []Term
 	heap   map[string]Term
 	cells  map[cellKey]Val
@@ -162,13 +163,15 @@ type State struct {
 	heldPlace map[string]*Place
 	lockSnap  map[string]*State // lock key -> state snapshot right after its acquisition
 	W0        Term               // watermark at function entry
+	leakAll   bool                // a function literal was stored to memory
+	leaked    map[*ssa.Alloc]bool // captured variables whose closure was handed to code not executed here
 	lastCall  map[string]callRec // contracted callee (short name) -> arguments/results of its most recent call
 }
 
 func (st *State) top() *Frame { return st.frames[len(st.frames)-1] }
 
 func (st *State) clone() *State {
-	n := &State{W: st.W, W0: st.W0, steps: st.steps, epoch: st.epoch}
+	n := &State{W: st.W, W0: st.W0, steps: st.steps, epoch: st.epoch, leakAll: st.leakAll}
 	if st.writes != nil {
 		n.writes = make(map[string][]string, len(st.writes))
 		for k, v := range st.writes {
@@ -180,6 +183,7 @@ func (st *State) clone() *State {
 		}
 	}
 	n.pc = append(make([]Term, 0, len(st.pc)+16), st.pc...)
+	n.hoist = append([]Term{}, st.hoist...)
 	n.heap = make(map[string]Term, len(st.heap))
 	for k, v := range st.heap {
 		n.heap[k] = v
@@ -197,6 +201,12 @@ func (st *State) clone() *State {
 		n.ghost[k] = v
 	}
 	n.trail = append([]string{}, st.trail...)
+	if st.leaked != nil {
+		n.leaked = make(map[*ssa.Alloc]bool, len(st.leaked))
+		for k, v := range st.leaked {
+			n.leaked[k] = v
+		}
+	}
 	if st.lastCall != nil {
 		n.lastCall = make(map[string]callRec, len(st.lastCall))
 		for k, v := range st.lastCall {
@@ -398,6 +408,12 @@ func (st *State) assumeLoadedRefs(v Val) {
 }
 
 func (st *State) store(p *Place, v Val) {
+	if v.Clo != nil && v.Clo.Fn != nil && p.Kind != PCell {
+		if st.leaked == nil {
+			st.leaked = map[*ssa.Alloc]bool{}
+		}
+		st.leakAll = true // a function literal was stored to memory: from here on nothing captured is private
+	}
 	_, lo, hi := p.typeAt()
 	if hi-lo != len(v.C) {
 		panic(fmt.Sprintf("store: component mismatch at %v: %d vs %d (%v)", p, hi-lo, len(v.C), v.T))
@@ -532,4 +548,12 @@ func lockKey(p *Place) string {
 		fmt.Fprintf(&b, ".%d", f)
 	}
 	return b.String()
+}
+
+// fullPC: the path condition of the state: the hoisted definitions followed by the assumptions.
+func (st *State) fullPC() []Term {
+	out := make([]Term, 0, len(st.hoist)+len(st.pc))
+	out = append(out, st.hoist...)
+	out = append(out, st.pc...)
+	return out
 }
